@@ -170,6 +170,9 @@ def plan(tier, seed):
     q = tier == "quick"
     for s in SINGLES:
         items.append(dict(scenario="shutdown", params=dict(layers=[s], busy=True), bounds=dict(lpredict=True, P=1 if q else 2, post_release=True)))
+        if s in THREAD_PREFIX:
+            # shutdown right after construction: races with the worker loop's first iteration
+            items.append(dict(scenario="shutdown", params=dict(layers=[s], busy=False, racing=False), bounds=dict(lpredict=True, P=2 if q else 3)))
         if not q:
             items.append(dict(scenario="shutdown", params=dict(layers=[s], busy=False), bounds=dict(lpredict=True, P=2)))
     for pr in PAIRS:
